@@ -73,6 +73,44 @@ CHECKS = {
         note='Trusted: TLC, the value projection (denotations, not container types). NaN/None, Boolean/Decimal/compound kinds and '
              'codec-side entry inference are not covered.',
         design='6/C15'),
+    'C03': dict(
+        technique='TLC enumeration of expression universes with a denotational semantics (Composition.tla); every expression '
+                  'built from the real operator library, compiled in train and apply mode and compared term by term with TLC',
+        text='Composition.tla gives every library operator (mapper/apply/train/label wrappers, map-reduce, stacking, dump, a '
+             'scope-doubling operator) an equation over trunk functions [apply, train, label]; composition is substitution. For each '
+             'expression of the universe TLC exports the value the closed pipeline Source >> e >> Probe must yield in train mode and in '
+             'apply mode with the trained states; the real Composition is compiled and interpreted and must yield exactly those terms.',
+        note='Trusted: TLC, symbolic actors, harness.refinterp, the positional numbering of actor labels shared by spec and driver. '
+             'Apply mode re-uses the composition of the train run (fresh expansions/processes: C04).',
+        design='6/C03 + Appendix A'),
+    'C10': dict(
+        technique='TLC exhaustive over bound sequences x semantics (Windows.tla tiling invariants) replayed through '
+                  'Source.query -> Feed.load -> drivers -> parser -> SQLite for five ordinal kinds; recorded launches validated by '
+                  'TraceWindows.tla',
+        text='Windows.tla decides the per-record delivery clauses (exactly once / never twice / never zero / only bound records '
+             'deviate / refusal on non-ordinal sources / default lower bound from the tag) for every bound sequence in the constants; '
+             'each exported launch sequence is run on the real extract path over SQLite with order-preserving encodings of the five '
+             'ordinal kinds and all alias spellings; delivered id bags are judged by TLC.',
+        note='Trusted: TLC, SQLite with ISO-text dates and binary collation as the storage fixture.',
+        design='6/C10'),
+    'C13': dict(
+        technique='TLC exhaustive over actor call histories (Actor.tla contract, ActorImpl.tla state handling of every flavour) '
+                  'with one behaviour per transition replayed against 12 actor flavours (direct, functor presets, saturated) + '
+                  'random call traces validated by TraceActor.tla',
+        text='Actor.tla states the contract (state transfer equivalence, builder parameters win, empty state is a no-op, pickling is '
+             'the identity, stateful iff train) as invariants and action properties; ActorImpl.tla models the default, decorated and '
+             'wrapped state handling and refines it; the same TLC behaviours are replayed on every real flavour.',
+        note='Trusted: TLC, symbolic apply terms, cloudpickle; positional builder arguments and partial get_params are not covered.',
+        design='6/C13'),
+    'C20': dict(
+        technique='TLC exhaustive over configuration stacks (Config.tla: merge vs denotation) and provider hierarchies x every '
+                  'registration/import order (Bank.tla requirement, BankImpl.tla as-is) replayed on the real Config / Service classes; '
+                  'random stacks, sections and hierarchies validated by TraceConfig.tla / TraceBank.tla',
+        text='Config.tla checks the recursive merge against a path-wise denotation (later wins at any depth, unrelated keys survive, '
+             'lists new-first without duplicates); Bank.tla fixes the lookup table every registration/import order must produce; all '
+             'exported stacks and behaviours are replayed on the real classes (fresh abstract root and module names per scenario).',
+        note='Trusted: TLC, dictionary encodings of scalars/strings, BANK isolation by fresh qualnames; Sink.Mode.resolve not reached.',
+        design='6/C20'),
 }
 
 NOT_YET = {}
